@@ -41,7 +41,12 @@ func (v Var) packageQualifier(pkg *types.Package) string {
 func varName(vr *types.Var, suffix string) string {
 	name := vr.Name()
 	if name != "" && name != "_" {
-		return name + suffix
+		name += suffix
+		// the generated method body declares these two identifiers itself
+		if name == "mock" || name == "callInfo" {
+			name += "MoqParam"
+		}
+		return name
 	}
 
 	name = varNameForType(vr.Type()) + suffix
